@@ -138,7 +138,11 @@ def write_pdx_file(
             zf_name = os.path.basename(output_file_name)
             with zf.open(zf_name, "w") as out_file:
                 file_index.append((zf_name, creation_date, mime_type))
+                # the file object may have been consumed before
+                # (e.g., by writing the database earlier)
+                data_file.seek(0)
                 out_file.write(data_file.read())
+                data_file.seek(0)
 
         jinja_env = jinja2.Environment(loader=jinja2.FileSystemLoader(templates_dir))
         jinja_env.globals["getattr"] = getattr
